@@ -92,6 +92,10 @@ def gen_configs(tier):
         # handles re-opened read-only / append-only, ring reads and writes on them
         ("gen_modes", consts(Entries={2}, Kinds={"write", "read"}, LatChoices={0}, CtlOps={"close", "open"},
                              Modes={"ao", "ro"}, MaxOps=2, MaxTicks=1, GenLen=7 if q else 8), 0),
+        # data written through the shim, handle re-opened read-only, ring fsync on it, crash: the crash image must
+        # hold the data (fsync flushes the file, not what that fd wrote)
+        ("gen_rofsync", consts(Entries={1}, Kinds={"fsync"}, LatChoices={0}, CtlOps={"shimw", "close", "open", "crash"},
+                               Modes={"ro"}, MaxOps=1, MaxTicks=0, MaxCrash=1, GenLen=9 if q else 10), 0),
     ]
     if not q:
         cfgs += [
